@@ -12,6 +12,34 @@
 
 struct module;
 void module_depends(const char *name, ...);
+void module_antidepends(const char *name, ...);
+void module_is_backend(void);
+
+/* names listed for `name` in a "a:b,c;d:e" style graph text */
+static int listed(const char *g, const char *name, char out[][64], int max)
+{
+    int n = 0;
+    size_t len = strlen(name);
+    while (g && *g) {
+        const char *semi = strchr(g, ';');
+        size_t seg = semi ? (size_t)(semi - g) : strlen(g);
+        if (seg > len && !strncmp(g, name, len) && g[len] == ':') {
+            const char *p = g + len + 1, *end = g + seg;
+            while (p < end && n < max) {
+                const char *c = memchr(p, ',', end - p);
+                size_t l = c ? (size_t)(c - p) : (size_t)(end - p);
+                if (l > 0 && l < 64) {
+                    memcpy(out[n], p, l);
+                    out[n][l] = '\0';
+                    n++;
+                }
+                p += l + 1;
+            }
+        }
+        g = semi ? semi + 1 : NULL;
+    }
+    return n;
+}
 
 static char myname[64];
 
@@ -33,34 +61,21 @@ static void ev(const char *what)
 #ifndef NO_CTOR
 void module_constructor(const char name[])
 {
-    const char *g = getenv("VERIF_GRAPH");
-    static char deps[8][64];
-    int ndeps = 0, i;
-    size_t len;
+    static char deps[8][64], anti[8][64], be[8][64];
+    int ndeps, nanti, nbe, i;
 
     snprintf(myname, sizeof(myname), "%s", name);
     ev("ctor_begin");
-    len = strlen(name);
-    while (g && *g) {
-        const char *semi = strchr(g, ';');
-        size_t seg = semi ? (size_t)(semi - g) : strlen(g);
-        if (seg > len && !strncmp(g, name, len) && g[len] == ':') {
-            const char *p = g + len + 1, *end = g + seg;
-            while (p < end && ndeps < 8) {
-                const char *c = memchr(p, ',', end - p);
-                size_t l = c ? (size_t)(c - p) : (size_t)(end - p);
-                if (l > 0 && l < 64) {
-                    memcpy(deps[ndeps], p, l);
-                    deps[ndeps][l] = '\0';
-                    ndeps++;
-                }
-                p += l + 1;
-            }
-        }
-        g = semi ? semi + 1 : NULL;
-    }
+    ndeps = listed(getenv("VERIF_GRAPH"), name, deps, 8);
+    nanti = listed(getenv("VERIF_ANTI"), name, anti, 8);       /* modules this one is a back-end provider for */
+    nbe = listed(getenv("VERIF_BACKEND"), "core", be, 8);      /* "core:m1,m2": back-ends of the core itself */
     for (i = 0; i < ndeps; i++)
         module_depends(deps[i], NULL);
+    for (i = 0; i < nanti; i++)
+        module_antidepends(anti[i], NULL);
+    for (i = 0; i < nbe; i++)
+        if (!strcmp(be[i], name))
+            module_is_backend();
     ev("ctor_end");
 }
 #else
